@@ -45,16 +45,13 @@ type Key struct {
 }
 
 func Int(i int64) Key { return Key{K: KInt, I: i} }
-func Float(f float64) Key {
-	if f == 0 {
-		// +0.0 and -0.0 are kept apart here on purpose: both normalise to Int(0).
-		return Key{K: KFloat, F: math.Float64bits(f)}
-	}
-	return Key{K: KFloat, F: math.Float64bits(f)}
-}
-func Str(s string) Key  { return Key{K: KStr, S: s} }
-func Bool(b bool) Key   { return Key{K: KBool, B: b} }
-func Ref(class int) Key { return Key{K: KRef, ID: class} }
+
+// Float keeps the bit pattern (+0.0 and -0.0 are different un-normalised
+// values; both normalise to Int(0)).
+func Float(f float64) Key { return Key{K: KFloat, F: math.Float64bits(f)} }
+func Str(s string) Key    { return Key{K: KStr, S: s} }
+func Bool(b bool) Key     { return Key{K: KBool, B: b} }
+func Ref(class int) Key   { return Key{K: KRef, ID: class} }
 
 // Fl returns the float of a KFloat key.
 func (k Key) Fl() float64 { return math.Float64frombits(k.F) }
